@@ -74,7 +74,18 @@ def known_class(cls, n, threads):
                     return "undirected-iteration-shifted-by-connect"
                 if b[0] in ("try", "dis", "iso"):
                     continue  # classified when that mutation is `a`
+    if has_connect_cycle(threads):
+        return "connect-cycle-of-list-orders"
     return None
+
+
+def has_connect_cycle(threads):
+    """connects as edges (out src -- in dst) of a bipartite multigraph over adjacency lists; a surviving cycle that
+    involves at least two threads (mirrors ConcClass.has_connect_cycle)"""
+    l = [(i, int(c.split()[1]), int(c.split()[2])) for i, t in enumerate(threads) for c in t if c.split()[0] == "con"]
+    for _ in range(len(l)):
+        l = [p for p in l if sum(1 for q in l if q[1] == p[1]) > 1 and sum(1 for q in l if q[2] == p[2]) > 1]
+    return bool(l) and any(p[0] != l[0][0] for p in l[1:])
 
 
 def scenario_case(name, cls, n, init_edges, threads):
